@@ -414,9 +414,7 @@ Fixpoint dotted_loop (json : bool) (parts : list (list N)) (l : list item) : dot
             let t := it_tok x in
             if json && (t =? T_CARET) then DOof OofJsonPath
             else if json && (t =? T_COLON) then DOof OofJsonPath
-            else if (t =? T_IDENT) || is_keyword t then
-              if later_part_ok (it_val x) then dotted_loop json (parts ++ [it_val x]) l2
-              else DOof OofIdentBytes
+            else if (t =? T_IDENT) || is_keyword t then dotted_loop json (parts ++ [it_val x]) l2
             else if t =? T_ASTERISK then DAsterisk (join_dot parts) l2
             else DParts parts l1                                    (* break: the dot stays consumed *)
         | [] => DParts parts l1
@@ -488,14 +486,13 @@ Definition parse_function_call (pe : PE) (fuel : nat) (name : list N) (s : st) :
         else if cur_is s4 T_IDENT && bytes_eqb (to_upper (cur_val s4)) s_FILTER
         then OutOfFragment OofFuncFilter
         else if cur_is s4 T_OVER then OutOfFragment OofFuncOver
-        else if function_is_special name args then OutOfFragment OofFuncSpecialName
         else ret (Some (EFunc name args [])) s4).
 
 (* parseIdentifierOrFunction — expression.go:661-777; the state is at the IDENT *)
 Definition parse_identifier_or_function (pe : PE) (fuel : nat) (s : st) : R (option expr) :=
   let name := cur_val s in
   let s1 := next s in
-  if negb (ident_part_ok name) then OutOfFragment OofIdentBytes
+  if cur_is s1 T_STRING && negb (ascii_only name) then OutOfFragment OofNonAscii
   else
     let upper := to_upper name in
     if cur_is s1 T_STRING && mem_bytes upper [s_DATE; s_TIMESTAMP; s_TIME]
@@ -509,7 +506,8 @@ Definition parse_identifier_or_function (pe : PE) (fuel : nat) (s : st) : R (opt
       | DParts parts rest =>
           let s2 := mkSt rest (errs s1) in
           if cur_is s2 T_LPAREN then
-            if Nat.leb 2 (List.length parts) && bytes_eqb (to_upper (last parts [])) s_COLUMNS
+            if negb (ascii_only (last parts [])) then OutOfFragment OofNonAscii
+            else if Nat.leb 2 (List.length parts) && bytes_eqb (to_upper (last parts [])) s_COLUMNS
             then OutOfFragment OofQualifiedColumns
             else parse_function_call pe fuel (join_dot parts) s2
           else ret (Some (EIdent parts [] false)) s2
@@ -519,13 +517,11 @@ Definition parse_identifier_or_function (pe : PE) (fuel : nat) (s : st) : R (opt
 Definition parse_keyword_as_identifier (s : st) : R (option expr) :=
   let name := cur_val s in
   let s1 := next s in
-  if negb (ident_part_ok name) then OutOfFragment OofIdentBytes
-  else
-    match dotted_loop false [name] (toks s1) with
-    | DOof r => OutOfFragment r
-    | DAsterisk table rest => ret (Some (EAsterisk table)) (mkSt rest (errs s1))
-    | DParts parts rest => ret (Some (EIdent parts [] false)) (mkSt rest (errs s1))
-    end.
+  match dotted_loop false [name] (toks s1) with
+  | DOof r => OutOfFragment r
+  | DAsterisk table rest => ret (Some (EAsterisk table)) (mkSt rest (errs s1))
+  | DParts parts rest => ret (Some (EIdent parts [] false)) (mkSt rest (errs s1))
+  end.
 
 (* parseUnaryMinus — expression.go:1131-1199; the state is at "-" *)
 Definition parse_unary_minus (pe : PE) (s : st) : R (option expr) :=
@@ -634,13 +630,11 @@ Definition parse_dot_access (pe : PE) (fuel : nat) (left : option expr) (s : st)
   else if cur_is s1 T_IDENT || cur_kw s1 then
     match left with
     | Some (EIdent parts alias false) =>
-        if negb (later_part_ok (cur_val s1)) then OutOfFragment OofIdentBytes
-        else
-          let parts' := parts ++ [cur_val s1] in
-          let s2 := next s1 in
-          if cur_is s2 T_LPAREN then parse_function_call pe fuel (join_dot parts') s2
-          else if cur_is s2 T_ASTERISK then ret (Some (EAsterisk (join_dot parts'))) (next s2)
-          else ret (Some (EIdent parts' alias false)) s2
+        let parts' := parts ++ [cur_val s1] in
+        let s2 := next s1 in
+        if cur_is s2 T_LPAREN then parse_function_call pe fuel (join_dot parts') s2
+        else if cur_is s2 T_ASTERISK then ret (Some (EAsterisk (join_dot parts'))) (next s2)
+        else ret (Some (EIdent parts' alias false)) s2
     | _ => OutOfFragment OofTupleAccess
     end
   else ret left s1.
@@ -833,15 +827,13 @@ Fixpoint skip_parens (depth : nat) (l : list item) : list item :=
       end
   end.
 
-(* [sub] : the query being parsed is (part of) a Subquery node, i.e. it is printed below the top
-   level.  Only used for the OofSubqueryEmptyList boundary. *)
 Section Core.
 
   Fixpoint parse_expr (fuel : nat) (prec : N) (s : st) {struct fuel} : R (option expr) :=
     match fuel with
     | O => OutOfFuel
     | S f =>
-        bind (parse_prefix (parse_expr f) (parse_select_with_union f true) f s) (fun '(lhs, s1) =>
+        bind (parse_prefix (parse_expr f) (parse_select_with_union f) f s) (fun '(lhs, s1) =>
         match lhs with
         | None => ret None s1
         | Some l => pratt_loop f prec l s1
@@ -863,12 +855,12 @@ Section Core.
         else ret (Some left) s
     end
   (* parseSelect / parseSelectInternal(nil) — parser.go:1051-1416 *)
-  with parse_select (fuel : nat) (sub : bool) (s : st) {struct fuel} : R (option select) :=
+  with parse_select (fuel : nat) (s : st) {struct fuel} : R (option select) :=
     match fuel with
     | O => OutOfFuel
     | S f =>
         let pe := parse_expr f in
-        let psu := parse_select_with_union f true in
+        let psu := parse_select_with_union f in
         if cur_is s T_WITH then OutOfFragment OofWith
         else if cur_is s T_FROM then OutOfFragment OofFromFirst
         else
@@ -884,9 +876,6 @@ Section Core.
             if cur_is s2 T_TOP then OutOfFragment OofTop
             else
               bind (parse_expression_list pe f s2) (fun '(columns, s3) =>
-              if sub && match columns with [] => true | _ => false end
-              then OutOfFragment OofSubqueryEmptyList
-              else
               (* FROM *)
               bind (if cur_is s3 T_FROM then
                       bind (parse_tables_in_select psu (next s3)) (fun '(t, s') => ret (Some t) s')
@@ -969,7 +958,7 @@ Section Core.
     end
   (* the `for p.currentIs(UNION) || p.currentIs(EXCEPT) || p.currentIs(INTERSECT)` loop of
      parseSelectWithUnion (parser.go:697-744); [prefix] = the mode strings carry "UNION " *)
-  with union_loop (fuel : nat) (sub prefix : bool) (selects : list (option select))
+  with union_loop (fuel : nat) (prefix : bool) (selects : list (option select))
                   (modes : list (list N)) (all : bool) (s : st) {struct fuel} : R query :=
     match fuel with
     | O => OutOfFuel
@@ -981,21 +970,21 @@ Section Core.
           let all' := all || set_all in
           if cur_is s1 T_LPAREN then OutOfFragment OofUnionParenOperand
           else
-            bind (parse_select f sub s1) (fun '(sel, s2) =>
+            bind (parse_select f s1) (fun '(sel, s2) =>
             match sel with
             | None => ret (Query selects modes' all') s2               (* break *)
-            | Some x => union_loop f sub prefix (selects ++ [Some x]) modes' all' s2
+            | Some x => union_loop f prefix (selects ++ [Some x]) modes' all' s2
             end)
         else ret (Query selects modes all) s
     end
   (* parseSelectWithUnion — parser.go:597-778 *)
-  with parse_select_with_union (fuel : nat) (sub : bool) (s : st) {struct fuel} : R (option query) :=
+  with parse_select_with_union (fuel : nat) (s : st) {struct fuel} : R (option query) :=
     match fuel with
     | O => OutOfFuel
     | S f =>
         bind
           (if cur_is s T_LPAREN then
-             bind (parse_select_with_union f sub (next s)) (fun '(nested, s1) =>
+             bind (parse_select_with_union f (next s)) (fun '(nested, s1) =>
              match nested with
              | None => Ok (None, s1)                                   (* return nil *)
              | Some n =>
@@ -1003,7 +992,7 @@ Section Core.
                  Ok (Some (q_selects n), s2)                          (* firstWasParenthesized: flattened *)
              end)
            else
-             bind (parse_select f sub s) (fun '(sel, s1) =>
+             bind (parse_select f s) (fun '(sel, s1) =>
              match sel with
              | None => Ok (None, s1)                                   (* return nil *)
              | Some x => Ok (Some [Some x], s1)
@@ -1014,10 +1003,9 @@ Section Core.
            | Some selects =>
                if cur_is s1 T_EXCEPT || cur_is s1 T_INTERSECT then OutOfFragment OofIntersectExcept
                else
-                 bind (union_loop f sub true selects [] false s1) (fun '(q, s2) =>
+                 bind (union_loop f true selects [] false s1) (fun '(q, s2) =>
                  if cur_is s2 T_SETTINGS then OutOfFragment OofSettings
                  else if cur_is s2 T_FORMAT then OutOfFragment OofFormat
-                 else if would_group (q_selects q) (q_modes q) then OutOfFragment OofUnionGrouping
                  else ret (Some q) s2)
            end)
     end.
@@ -1030,7 +1018,7 @@ Section Core.
       let s3 := if cur_is s2 T_RPAREN then next s2 else s2 in
       ret (Some (Query [] [] false)) s3
     else
-      bind (parse_select_with_union fuel false s1) (fun '(inner, s2) =>
+      bind (parse_select_with_union fuel s1) (fun '(inner, s2) =>
       let '(_, s3) := expect T_RPAREN s2 in
       if cur_is s3 T_EXCEPT || cur_is s3 T_INTERSECT then OutOfFragment OofIntersectExcept
       else
@@ -1042,10 +1030,9 @@ Section Core.
         (* `for p.currentIs(token.UNION)`: union_loop additionally stops with OutOfFragment at
            EXCEPT / INTERSECT, which the Go loop leaves to the caller (ParseStatements: "unexpected
            token") -- a superset of the branch, never a different answer *)
-        bind (union_loop fuel false false selects modes all s3) (fun '(q, s4) =>
+        bind (union_loop fuel false selects modes all s3) (fun '(q, s4) =>
         if cur_is s4 T_FORMAT then OutOfFragment OofFormat
         else if cur_is s4 T_SETTINGS then OutOfFragment OofSettings
-        else if would_group (q_selects q) (q_modes q) then OutOfFragment OofUnionGrouping
         else ret (Some q) s4)).
 
   (* parseStatement / parseStatementByKeyword — parser.go:215-366.  The reflect test of
